@@ -3,13 +3,6 @@
 TIER=${1:-quick}; PAR=${2:-3}
 cd /verif && mkdir -p build/fullpass
 IDS=$(/venv/bin/python -c "import json;print(' '.join(c['property_id'] for c in json.load(open('/verif/MANIFEST.json'))['checks']))")
-one() {
-  id=$1; t0=$(date +%s)
-  ./check $id --tier $TIER > build/fullpass/$id.$TIER.log 2>&1; rc=$?
-  t1=$(date +%s); nv=$(grep -c '^VIOLATION' build/fullpass/$id.$TIER.log); nk=$(grep -c '^KNOWN-FINDING' build/fullpass/$id.$TIER.log)
-  echo "$id rc=$rc violations=$nv known=$nk secs=$((t1-t0))"
-}
-export -f one 2>/dev/null
 for id in $IDS; do echo $id; done | xargs -P $PAR -I{} sh -c '
   id={}; t0=$(date +%s)
   ./check $id --tier '"$TIER"' > build/fullpass/$id.'"$TIER"'.log 2>&1; rc=$?
